@@ -117,6 +117,11 @@ SafePointRule(e) ==
   \A c \in {e.get, e.batchget, e.scan} :
      /\ e.ts < e.sp => Check(c = "abortedbygc", "a snapshot read below the learned transaction safe point was served", <<e.ts, e.sp, c>>)
      /\ e.ts >= e.sp => Check(c # "abortedbygc", "a snapshot read at or above the safe point was refused", <<e.ts, e.sp, c>>)
+\* the safe point moved above the snapshot while its scan was under way: a batch fetched afterwards is a read below it
+\* (batch size 2: at most the two pairs of the batch fetched before the update may still be delivered)
+MidScanRule(e) ==
+  /\ e.fetches > 0 => Check(e.scan = "abortedbygc", "a scan batch fetched below the newly learned transaction safe point was served", <<e.ts, e.sp, e.scan, e.fetches>>)
+  /\ Check(e.later <= 2, "a scan delivered pairs fetched after the safe point had passed its timestamp", <<e.ts, e.sp, e.later>>)
 
 (******************************* end-of-run rules *******************************)
 FinalRules ==
@@ -252,6 +257,7 @@ Next ==
        [] e.ev = "rangetask" -> Unch /\ RangeTaskRule(e)
        [] e.ev = "delete_range" -> Unch /\ DeleteRangeRule(e)
        [] e.ev = "safepoint_read" -> Unch /\ SafePointRule(e)
+       [] e.ev = "safepoint_midscan" -> Unch /\ MidScanRule(e)
        [] e.ev = "livelock" -> Unch /\ Bad("a call kept sending requests without end (no progress within the RPC budget of one scenario)", <<e.client, e.cmd>>)
        [] e.ev = "store_panic" -> Unch /\ Bad("a request reached a region that does not contain its key (the store refused it)", <<e.client, e.cmd, e.req>>)
        [] OTHER -> Unch
